@@ -163,7 +163,15 @@ def _mk_pool_class():
         def send_ack(self, response, pid, job, fd):
             log('send_ack', response=response, wpid=pid, job=job, fd=fd)
             proc, _ = self._process_by_pid(pid)
-            if proc is None:
+            # a fresh (replacement) worker can announce its first job before the
+            # supervisor thread has entered it in the pool's list and registered
+            # its queues: wait for that instead of losing the answer
+            deadline = time.monotonic() + 15
+            while (proc is None or not hasattr(proc, '_c03_synq')) and \
+                    time.monotonic() < deadline:
+                time.sleep(0.01)
+                proc, _ = self._process_by_pid(pid)
+            if proc is None or not hasattr(proc, '_c03_synq'):
                 log('send_ack_no_proc', wpid=pid, job=job)
                 return
             proc._c03_synq.put((response, (pid, job)))
